@@ -41,7 +41,10 @@ class Case:
     def documents(self, n):
         out = []
         for _ in range(n):
-            d = xsdgen.Inst(self.src, self.rng).document()
+            g = xsdgen.Inst(self.src, self.rng)
+            d = g.document()
+            if g.used_xsitype:
+                d.set("data-xsitype", "1")      # marker read (and removed) by the checks: not sent to the model
             out.append(d)
         return out
 
